@@ -159,6 +159,15 @@ def wrap(ir, pos, t):
         return ir.generic("Wrapper", [t])     # Wrapper is not typeshared
     if pos == "nested_generic_arg":
         return ir.generic("G", [ir.vec(t)])
+    # positions of a generic referrer (G<T>) that mention its own parameter next to the reference
+    if pos == "map_param_key":
+        return ir.hashmap(ir.simple("T"), t)
+    if pos == "foreign_generic_with_param":
+        return ir.generic("Wrapper", [ir.simple("T"), t])
+    if pos == "applied_to_param":
+        return ir.generic(t.fields[0], [ir.simple("T")])              # Target<T>
+    if pos == "vec_applied_to_param":
+        return ir.vec(ir.generic(t.fields[0], [ir.option(ir.simple("T"))]))   # Vec<Target<Option<T>>>
     raise KeyError(pos)
 
 
@@ -276,7 +285,7 @@ def case_topsort(case):
 
 
 VALID = {"struct": ["field", "vec", "option", "map_value", "map_key", "array", "slice", "generic_arg_local", "generic_arg_foreign", "nested_generic_arg", "vec_option"],
-         "gstruct": ["field", "vec", "option", "array", "generic_arg_foreign"],
+         "gstruct": ["field", "vec", "option", "array", "generic_arg_foreign", "map_param_key", "foreign_generic_with_param", "applied_to_param", "vec_applied_to_param"],
          "enum": ["newtype_variant", "struct_variant_field", "vec", "option", "map_value", "array", "slice", "generic_arg_local", "generic_arg_foreign", "nested_generic_arg"],
          "alias": ["alias_target", "vec", "option", "map_value", "array", "slice", "generic_arg_local", "generic_arg_foreign", "nested_generic_arg"],
          "const": ["const_type"]}
@@ -288,7 +297,7 @@ def topsort_cases(tier):
     items have one slot each.  quick: 3 items; thorough: also 4 items and varied secondary positions."""
     kind_sets = [("struct", "struct", "struct"), ("struct", "enum", "alias"), ("enum", "alias", "struct"), ("alias", "struct", "const"),
                  ("const", "struct", "alias"), ("struct", "gstruct", "struct"), ("enum", "gstruct", "alias"), ("alias", "gstruct", "struct"),
-                 ("gstruct", "struct", "struct")]
+                 ("gstruct", "struct", "struct"), ("gstruct", "enum", "enum"), ("gstruct", "enum", "struct")]
     if tier == "thorough":
         kind_sets += [("struct", "struct", "struct", "struct"), ("enum", "enum", "struct"), ("alias", "alias", "alias"),
                       ("struct", "gstruct", "enum", "alias"), ("enum", "struct", "alias", "const"), ("alias", "enum", "gstruct", "struct")]
@@ -324,7 +333,8 @@ def render_source(case):
         return {"field": t, "newtype_variant": t, "struct_variant_field": t, "alias_target": t, "const_type": t, "vec": "Vec<%s>" % t,
                 "option": "Option<%s>" % t, "vec_option": "Vec<Option<%s>>" % t, "map_value": "HashMap<String, %s>" % t,
                 "map_key": "HashMap<%s, u32>" % t, "array": "[%s; 2]" % t, "slice": "&'static [%s]" % t,
-                "generic_arg_local": "G<%s>" % t, "generic_arg_foreign": "Wrapper<%s>" % t, "nested_generic_arg": "G<Vec<%s>>" % t}[pos]
+                "generic_arg_local": "G<%s>" % t, "generic_arg_foreign": "Wrapper<%s>" % t, "nested_generic_arg": "G<Vec<%s>>" % t,
+                "map_param_key": "HashMap<T, %s>" % t, "foreign_generic_with_param": "Wrapper<T, %s>" % t, "applied_to_param": "%s<T>" % t, "vec_applied_to_param": "Vec<%s<Option<T>>>" % t}[pos]
     out = []
     for i, k in enumerate(kinds):
         nm = "G" if k == "gstruct" else NAMES[i]
